@@ -74,6 +74,8 @@ class Atoms:
         # structural evaluators tried on the *inlined* expression before giving up:
         # callables (expr_ast, canonical_text) -> True / False / predicate name / "!name" / None
         self.funcs: List[Callable] = []
+        # names of module-level `object()` sentinels (identity tests against them are decidable)
+        self.sentinels: Set[str] = set()
 
     def note(self) -> str:
         """Text for obligation details: tests the table could not map (explored both ways)."""
@@ -146,6 +148,17 @@ def evaluate(expr, env: dict, val: Dict[str, bool], atoms: Atoms, depth: int = 8
                         return None
                     r = val[name] if pol else (not val[name])
                     return not r
+    # identity with a private sentinel (a module-level `object()`): the sentinel is itself, a looked-up value never is
+    if isinstance(expr, ast.Compare) and len(expr.ops) == 1 and isinstance(expr.ops[0], (ast.Is, ast.IsNot)) and getattr(atoms, "sentinels", None):
+        red = simplify(expr, env, val, atoms) or inline(expr, env)
+        if isinstance(red, ast.Compare) and isinstance(red.comparators[0], ast.Name) and red.comparators[0].id in atoms.sentinels:
+            same = None
+            if isinstance(red.left, ast.Name) and red.left.id == red.comparators[0].id:
+                same = True
+            elif isinstance(red.left, ast.Subscript):
+                same = False
+            if same is not None:
+                return same if isinstance(expr.ops[0], ast.Is) else not same
     # partial evaluation under the valuation: intermediates such as `v = n.value if n else None` / `d.get(k, U)` are
     # reduced with what the valuation says about their tests, then the reduced test is looked up again
     if depth > 2 and not isinstance(expr, ast.IfExp):
@@ -189,7 +202,7 @@ def simplify(expr, env: dict, val: Dict[str, bool], atoms: Atoms):
     inl = inline(expr, env)
     before = unparse(inl)
     quiet = Atoms({})
-    quiet.map, quiet.funcs = atoms.map, atoms.funcs
+    quiet.map, quiet.funcs, quiet.sentinels = atoms.map, atoms.funcs, getattr(atoms, "sentinels", set())
 
     class R(ast.NodeTransformer):
         def visit_Lambda(self, node):
@@ -350,12 +363,21 @@ def iteration_outcomes(cfg: CFG, loop_stmt, decide, label, into_handlers: bool =
     return out
 
 
-def eager_env(trace, caught: str = "CAUGHT") -> dict:
+def eager_env(trace, caught: str = "CAUGHT", opaque=None) -> dict:
     """name -> expression it holds at the end of the path, every right-hand side resolved with the values the names had
     *when it was evaluated* (so `e = Wrap(e)` resolves to `Wrap(<previous e>)`).  A handler's variable is the name `caught`."""
     import copy
 
     sym: dict = {}
+
+    def keep(v):
+        """`opaque(value) -> role name | None`: a value the rule wants to see by role (the result of a producer call) is
+        not expanded any further; the name of its role stands for it."""
+        if opaque is not None:
+            role = opaque(v)
+            if role:
+                return ast.Name(id=role, ctx=ast.Load())
+        return v
 
     def sub(e):
         class T(ast.NodeTransformer):
@@ -394,11 +416,11 @@ def eager_env(trace, caught: str = "CAUGHT") -> dict:
                 if isinstance(t, (ast.Attribute, ast.Subscript)):
                     sym["@" + unparse(t)] = v  # queried by rules, never substituted
                 if isinstance(t, ast.Name):
-                    sym[t.id] = v
+                    sym[t.id] = keep(v)
                 elif isinstance(t, (ast.Tuple, ast.List)):
                     for i, e in enumerate(t.elts):
                         if isinstance(e, ast.Name):
-                            sym[e.id] = v.elts[i] if isinstance(v, (ast.Tuple, ast.List)) and len(v.elts) == len(t.elts) else ast.Subscript(value=v, slice=ast.Constant(value=i), ctx=ast.Load())
+                            sym[e.id] = keep(v.elts[i] if isinstance(v, (ast.Tuple, ast.List)) and len(v.elts) == len(t.elts) else ast.Subscript(value=v, slice=ast.Constant(value=i), ctx=ast.Load()))
         elif n.kind == "stmt" and isinstance(n.ast, ast.Expr) and isinstance(n.ast.value, ast.Call) and isinstance(n.ast.value.func, ast.Attribute) \
                 and isinstance(n.ast.value.func.value, ast.Name) and n.ast.value.func.attr in ("append", "extend") and len(n.ast.value.args) == 1 \
                 and isinstance(sym.get(n.ast.value.func.value.id), (ast.List, ast.BinOp)):
@@ -472,7 +494,7 @@ def _literal_truth(a):
     return None
 
 
-def outcome_rows(fv, raising_stmts=(), decide=None, caught: str = "CAUGHT", focus=None):
+def outcome_rows(fv, raising_stmts=(), decide=None, caught: str = "CAUGHT", focus=None, opaque=None):
     if focus is not None and decide is None:
         decide = _focus_decider(fv, set(focus))
     """One row per path of the function: the outcomes of its tests (each test resolved with the values its names held
@@ -490,7 +512,7 @@ def outcome_rows(fv, raising_stmts=(), decide=None, caught: str = "CAUGHT", focu
 
     for tr in fv.cfg.simulate(dec, follow_exc=(lambda n, env: n.kind == "stmt" and id(n.ast) in rs) if rs else None):
         nodes = tr.nodes
-        sym = eager_env(tr, caught)
+        sym = eager_env(tr, caught, opaque)
         conds = list(sym["__tests__"])
         # infeasible paths: a value the path itself built decides its own test; one value cannot test both ways
         feasible = True
